@@ -101,6 +101,9 @@ def _tree_job(job):
         try:
             text, raw = rt.render(objs, o)
         except Exception as e:
+            if isinstance(e, UnicodeEncodeError) and o["encoding"] and _strict_unencodable(tree, o["encoding"]):
+                res["unencodable"] = res.get("unencodable", 0) + 1      # a comment the encoding cannot express: an error IS reported
+                continue
             res["outs"].append({"text": None, "alpha": False, "minb": False, "ok": False, "why": [], "rep": o, "n": 1, "exc": repr(e)})
             continue
         key = (text, o["alphabetical_attributes"], o["minimize_boolean_attributes"])
@@ -140,18 +143,39 @@ def _tree_job(job):
     return res
 
 
-def _select_for_tlc(res, seed, per_tree):
-    """indices of the outputs TLC judges: all of them for full-product trees and for trees outside the generator, else the
-    default-options output plus per_tree-1 seeded picks, plus every output the real parser did not read back to the tree"""
+def _strict_unencodable(tree, encoding):
+    """does the tree hold a comment (the only place outside text and attribute values where the modelled class allows
+    non-ASCII) that `encoding` cannot express?  There is no escape syntax inside comments, so the serializer's
+    UnicodeEncodeError is the reported error, not a silent change."""
+    stack = [tree]
+    while stack:
+        nd = stack.pop()
+        if nd["k"] == "comment":
+            try:
+                dec(nd["d"]).encode(encoding)
+            except UnicodeEncodeError:
+                return True
+        stack.extend(nd["c"])
+    return False
+
+
+def _select_for_tlc(res, seed, per_tree, frac, cap_full):
+    """indices of the outputs TLC judges.  Generated trees: a seeded fraction `frac` of the trees, for each the first
+    (default-like) output, per_tree-1 seeded picks and every output the real parser did not read back to the tree.
+    Full-product trees and trees outside the generator: a seeded sample of at most cap_full / 3*per_tree outputs plus the
+    failing ones (capped likewise)."""
     outs = [i for i, x in enumerate(res["outs"]) if x["text"] is not None]
-    if res["full"] or not res["gen"]:
-        return outs
     rng = random.Random(seed ^ _crc(res["tree"]))
-    pick = set(outs[:1])
-    rest = outs[1:]
-    rng.shuffle(rest)
-    pick.update(rest[:max(0, per_tree - 1)])
-    pick.update(i for i in outs if not res["outs"][i]["ok"])
+    if res["gen"] and not res["full"] and rng.random() >= frac:
+        return []
+    cap = cap_full if res["full"] else (per_tree if res["gen"] else 3 * per_tree)
+    good = [i for i in outs if res["outs"][i]["ok"]]
+    bad = [i for i in outs if not res["outs"][i]["ok"]]
+    pick = set(good[:1])
+    rng.shuffle(good)
+    rng.shuffle(bad)
+    pick.update(good[:max(0, cap - 1)])
+    pick.update(bad[:max(2, cap // 2)])
     return sorted(pick)
 
 
@@ -159,10 +183,11 @@ def _select_for_tlc(res, seed, per_tree):
 class Judge(object):
     """collects results, sends the selected outputs to Trace_RoundTrip in chunks, applies the verdict policy"""
 
-    def __init__(self, ctx, parser_defects, per_tree):
+    def __init__(self, ctx, parser_defects, per_tree, frac, cap_full):
         self.ctx = ctx
         self.consts = "CONSTANT KnownDefects = %s\n" % q(parser_defects)
-        self.per_tree = per_tree
+        self.per_tree, self.frac, self.cap_full = per_tree, frac, cap_full
+        self.by_src = {}
         self.pending = []
         self.bytes = 0
         self.batch = 0
@@ -177,7 +202,9 @@ class Judge(object):
         if res["err"]:
             ctx.violation("tree could not be materialised: %s" % res["err"], {"kind": "materialise", "tree": res["tree"]})
             return
-        sel = _select_for_tlc(res, ctx.seed, self.per_tree)
+        if res.get("unencodable"):
+            st["unencodable_comment_vectors"] = st.get("unencodable_comment_vectors", 0) + res["unencodable"]
+        sel = _select_for_tlc(res, ctx.seed, self.per_tree, self.frac, self.cap_full)
         chunk = 24
         for i in range(0, len(sel), chunk):
             idx = sel[i:i + chunk]
@@ -186,7 +213,10 @@ class Judge(object):
             self.pending.append((tr, res, idx))
             self.bytes += 40 * sum(len(o["o"]) for o in tr["outs"]) // 10 + 2000
         if not sel:
-            self.settle(res, set(), None)
+            if res["gen"]:
+                self.settle(res, set(), None)
+            else:
+                st["unjudged_no_output"] = st.get("unjudged_no_output", 0) + 1
         if self.bytes > (12 << 20):
             self.flush()
 
@@ -228,8 +258,12 @@ class Judge(object):
         """verdict policy for one tree"""
         ctx = self.ctx
         st = self.stats
+        src = res.get("src") or "generated"
+        bs = self.by_src.setdefault(src, {"trees": 0, "skipped_nonconforming": 0, "skipped_not_fixpoint": 0})
+        bs["trees"] += 1
         if skip:
             st["skipped_nonconforming" if skip == "skip:nonconforming" else "skipped_not_fixpoint"] += 1
+            bs["skipped_nonconforming" if skip == "skip:nonconforming" else "skipped_not_fixpoint"] += 1
             if skip == "skip:not-fixpoint":
                 ctx.notes.setdefault("not_fixpoint_examples", [])
                 if len(ctx.notes["not_fixpoint_examples"]) < 5:
@@ -305,12 +339,15 @@ def run(ctx):
     workers = 8
     extra, less, textlen = (0, 1, 2) if qk else (0, 0, 3)
     per_tree = 1 if qk else 2
-    full_mod = 1500 if qk else 2500
+    frac = 0.35 if qk else 0.5
+    cap_full = 120 if qk else 400
+    full_mod = 3000 if qk else 3000
     _G.update(full=rt.full_product(), pairwise=rt.pairwise(random.Random(ctx.seed)), listed=set(listed), workers=workers)
     ctx.constants = {"themes": THEMES, "bound": "Bound(theme) + %d - %d added nodes" % (extra, less), "TextLen": textlen,
                      "KnownDefects(parser, code-faithful)": parser_defects, "OtDefects(intended)": [],
                      "option factors": {k: v for k, v in rt.FACTORS}, "pairwise rows": len(_G["pairwise"]), "full product rows": len(_G["full"]),
-                     "TLC-judged outputs per generated tree": per_tree, "listed findings": listed}
+                     "TLC-judged outputs per generated tree": per_tree, "TLC-judged fraction of generated trees": frac,
+                     "TLC-judged outputs per full-product tree (cap)": cap_full, "listed findings": listed}
     ctx.rule = ("MC: every conforming document of <= Bound(theme) added nodes per theme (13 themes), theorems ThmConforming / ThmFixpoint / "
                 "ThmOmit on the parser specification; every exported tree materialised (etree + minidom, projection checked), serialized "
                 "by the real HTMLSerializer under a pairwise covering array of 12 factors (full cross product of 18432 vectors on the "
@@ -339,7 +376,7 @@ def run(ctx):
         wit[d] = (r2.violated == "ThmOmit")
     ctx.notes["finding_witness_at_model_level"] = wit
     # ---- 2. spec -> code: replay every exported tree ----
-    judge = Judge(ctx, parser_defects, per_tree)
+    judge = Judge(ctx, parser_defects, per_tree, frac, cap_full)
     shown = 0
     for batch in core.batched(_jobs_from_records(tlc.iter_records(r.stdout_path), ctx.seed, full_mod), 4000):
         for res in core.parallel(_tree_job, batch, chunk=100):
@@ -364,6 +401,7 @@ def run(ctx):
     judge.flush()
     ctx.notes["generated_trees"] = gen_stats
     ctx.notes["all_trees"] = judge.stats
+    ctx.notes["trees_by_source"] = judge.by_src
     ctx.notes["failed_outputs_by_finding"] = judge.failed_by_key
 
 
